@@ -57,7 +57,7 @@ def run_shard(sh_, bdir, deadline):
     args += ["--replay-dir", os.path.join(HERE, "replays")]
     t0 = time.time()
     try:
-        r = subprocess.run(args, stdout=subprocess.PIPE, stderr=subprocess.PIPE, text=True, cwd=HERE, timeout=deadline * 3 + 600,
+        r = subprocess.run(args, stdout=subprocess.PIPE, stderr=subprocess.PIPE, text=True, encoding="utf-8", errors="replace", cwd=HERE, timeout=deadline * 3 + 600,
                            env=dict(os.environ, ASAN_OPTIONS="halt_on_error=0:detect_leaks=0:allocator_may_return_null=1:suppress_equal_pcs=0:handle_segv=0:handle_abort=0:handle_sigbus=0:handle_sigfpe=0:handle_sigill=0", UBSAN_OPTIONS="halt_on_error=0:print_stacktrace=0", TSAN_OPTIONS="halt_on_error=0:exitcode=1:report_signal_unsafe=0"))
     except subprocess.TimeoutExpired:
         return {"tag": sh_["tag"], "rc": 2, "err": "shard timed out (hard limit)", "wall": time.time() - t0}
